@@ -76,3 +76,38 @@ Definition k_siginit (l : layout) (i : xinit) (paths : list (list Z)) : list Z :
   | Okz v => 1 :: v :: flat_map (fun p => enc (view_path l v p)) paths
   | Errz _ => [0; 4]
   end.
+
+(* ---- designs assigning through views: the model's value of the signal after every step, then (after -7) the
+   rows RtlilSem.run computes on the document read from the emitted RTLIL (status, observed output port) *)
+From V.Model Require Export RtlilSem.     (* its `ones` / `sstep` shadow Data's: qualified below *)
+Definition k_synth (l : layout) (tv : Z) (casgs sasgs : list sasg) (env0 : list Z) (steps : list Data.sstep)
+                   (d : doc) (port : nat * Z) (init_ins : list (nat * Z)) (stim : list (list (nat * Z))) : list Z :=
+  synth l tv casgs sasgs env0 steps ++ [-7] ++ run d [Some ([], fst port, snd port)] init_ins stim.
+(* the same without a document (conversion or reading failed: the harness puts the reason after -8) *)
+Definition k_synth_nodoc (l : layout) (tv : Z) (casgs sasgs : list sasg) (env0 : list Z) (steps : list Data.sstep)
+                         (why : list Z) : list Z :=
+  synth l tv casgs sasgs env0 steps ++ [-8] ++ why.
+
+(* FlexibleLayout(size, fields): accepted / ValueError *)
+Definition k_flexnew (sz : Z) (fs : list (Z * (Z * layout))) : list Z :=
+  if flex_new_ok sz fs then [1] else [0; 3].
+
+(* results with the kind of the returned object: 0 int, 1 lib.data.Const of the field's layout, 2 enumeration member *)
+Definition tagc (sub : layout) : Z := match sub with Leaf _ => 0 | ELeaf _ _ _ => 2 | _ => 1 end.
+Definition tagv (sub : layout) : Z := match sub with Leaf _ => 0 | ELeaf _ vw _ => if vw then 2 else 0 | _ => 1 end.
+Definition enct (tag : layout -> Z) (r : res) : list Z :=
+  match r with Ok sub v => [1; tag sub; v] | Err c => [0; c] end.
+Definition k_const_t (l : layout) (i : init) (paths : list (list Z)) : list Z :=
+  encz (layout_const l i) ++
+  match layout_const l i with
+  | Okz v => flat_map (fun p => enct tagc (const_path l v p)) paths
+  | _ => []
+  end.
+Definition k_view_t (l : layout) (tv : Z) (paths : list (list Z)) : list Z :=
+  flat_map (fun p => enct tagv (view_path l tv p)) paths.
+(* Signal(layout, init=...) also formats the layout (TypeError for a signed enumeration with a view class) *)
+Definition k_siginit_f (l : layout) (i : xinit) (paths : list (list Z)) : list Z :=
+  if format_ok l then k_siginit l i paths else [0; 4].
+
+(* FlagView operator with an operand that is neither a FlagView nor a member of the same class: TypeError *)
+Definition k_flag_fvbad : list Z := [3].
